@@ -325,4 +325,8 @@ def install_seams(clock, shuffle=None):
             return 1500000000.0 + clock.seconds()
 
     _kc.time = _Time
+    # the gzip module stamps the wall-clock second into every header it writes (afkak.codec.gzip_encode passes no
+    # mtime): the virtual clock owns that source of time too
+    import gzip as _gzip
+    _gzip.time = _Time
     return seam
